@@ -474,6 +474,14 @@ func (s *Server) attachClient(cl *Client, listener string) error {
 
 	s.hooks.OnSessionEstablished(cl, pk)
 
+	select {
+	case <-s.done:
+		// the server began closing while this connection was being established: Close took its list of
+		// clients to disconnect before this one was registered, and would wait for it indefinitely.
+		_ = s.DisconnectClient(cl, packets.ErrServerShuttingDown)
+	default:
+	}
+
 	err = cl.Read(s.receivePacket)
 	if err != nil {
 		s.sendLWT(cl)
